@@ -401,8 +401,40 @@ var c03padKinds = []string{"newlines", "spaces", "block-comment", "line-comment"
 var c03bigKinds = []string{"paren", "block", "slicetype", "literal", "locals", "globals", "stmts", "args", "ident", "string", "rawstring", "digits", "params", "fields", "methods", "mapentries", "results", "funcs", "returns-of", "sprint-args", "string-concat-run"}
 var c03quadKinds = []string{"call", "chain", "neg", "else", "not", "and-chain", "deref", "closure-nest", "index-nest", "index-chain", "select-chain", "if-else-if", "cases", "compl", "ptr-type"}
 
+// runaway and very deep recursion: run without the harness's depth and step budgets, so that it is goatlang itself
+// that has to stop (the Go runtime kills the process at a 1 GB stack, which no recover catches)
+var c03recurseKinds = []string{"recurse-self", "recurse-counted", "recurse-mutual", "recurse-method", "recurse-variadic", "recurse-value", "recurse-main", "recurse-f-args", "recurse-locals"}
+
+func (g c03scaleGen) recursion() bool { return strings.HasPrefix(g.Kind, "recurse-") }
+
 func (g c03scaleGen) source() string {
 	n := g.N
+	switch g.Kind {
+	case "recurse-self":
+		return "func r() {\n\tr()\n}\nr()"
+	case "recurse-counted":
+		return fmt.Sprintf("func d(n int) int {\n\tif n == 0 {\n\t\treturn 0\n\t}\n\treturn d(n-1) + 1\n}\nx := d(%d)\nx", n)
+	case "recurse-mutual":
+		return "func a(n int) int {\n\treturn b(n + 1)\n}\nfunc b(n int) int {\n\treturn a(n + 1)\n}\na(0)"
+	case "recurse-method":
+		return "type R struct {\n\tn int\n}\nfunc (t *R) M() int {\n\tt.n++\n\treturn t.M()\n}\ny := &R{}\ny.M()"
+	case "recurse-variadic":
+		return "func v(a ...int) int {\n\treturn v(a...)\n}\nv(1, 2)"
+	case "recurse-value":
+		return "var g func(int) int\nfunc h(n int) int {\n\treturn g(n + 1)\n}\ng = h\nh(0)"
+	case "recurse-main": // defined only: the recursion happens under Call("main.main")
+		return "func main() {\n\tmain()\n}"
+	case "recurse-f-args": // defined only: the recursion happens under Func(f, ...) with 0..2 arguments
+		return "func f(a ...any) int {\n\treturn f(a...) + 1\n}\nfunc F(a ...any) {\n\tF()\n}"
+	case "recurse-locals": // wide frames: the value stack grows by 200 slots per call
+		var sb strings.Builder
+		sb.WriteString("func w(n int) int {\n")
+		for i := 0; i < 200; i++ {
+			fmt.Fprintf(&sb, "\tv%d := n + %d\n", i, i)
+		}
+		fmt.Fprintf(&sb, "\tif n == 0 {\n\t\treturn v199\n\t}\n\treturn w(n-1) + v0 - v0\n}\nw(%d)", n)
+		return sb.String()
+	}
 	rep := strings.Repeat
 	var sb strings.Builder
 	many := func(f string, a ...func(i int) any) {
@@ -582,6 +614,18 @@ func c03scaleSpace(thorough bool) c03space {
 	for _, k := range []string{"not", "neg", "compl", "deref", "ptr-type", "slicetype", "paren", "block"} {
 		deep = append(deep, c03scaleGen{k, 1 << 22, 0})
 	}
+	for _, k := range c03recurseKinds {
+		ns := []int{0}
+		if k == "recurse-counted" || k == "recurse-locals" { // terminating: below, around and beyond any plausible limit
+			ns = []int{1000, 5000, 50000, 99000, 100000, 100001, 1 << 17, 1 << 19, 1 << 21}
+			if k == "recurse-locals" {
+				ns = []int{1000, 5000, 50000, 1 << 17, 1 << 19}
+			}
+		}
+		for _, n := range ns {
+			deep = append(deep, c03scaleGen{k, n, 0})
+		}
+	}
 	return c03space{"scale", nflat + len(deep), func(i int) c03case {
 		if i >= nflat {
 			g := deep[i-nflat]
@@ -722,6 +766,9 @@ func c03exec(c c03case, mask int) string {
 	m.Ctx.MaxDepth = 200
 	if c.Gen != nil {
 		m.Ctx.MaxSteps = 3_000_000
+		if c.Gen.recursion() {
+			m.Ctx.MaxSteps, m.Ctx.MaxDepth = 0, 0
+		}
 	}
 	var sink bytes.Buffer
 	var sys fs.FS = fstest.MapFS{}
